@@ -355,6 +355,18 @@ func c03Kinds() []c03Kind {
 			verifrt.Assert(verifrt.SameValue(m["home_zip"], in.Home.Zip), "C03.map-value")
 			verifrt.Assert(len(m) == 7, "C03.map-columns")
 		}},
+		{"embedded-twice-renamed", func(db *gorm.DB, s *Store) {
+			in := KEmbeddedTwice{Home: Place{Town: verifrt.Bytes("t1", 1), Code: verifrt.Int("c1")},
+				Work: Place{Town: verifrt.Bytes("t2", 1), Code: verifrt.Int("c2")}}
+			ok(db.Create(&in), "create")
+			var out KEmbeddedTwice
+			ok(db.First(&out), "first")
+			verifrt.Assert(out.Home == in.Home, "C03.value:embedded-home")
+			verifrt.Assert(out.Work == in.Work, "C03.value:embedded-work")
+			m := map[string]interface{}{}
+			ok(db.Model(&KEmbeddedTwice{}).First(&m), "first-map")
+			verifrt.Assert(len(m) == 5, "C03.map-columns")
+		}},
 		{"default-tags", func(db *gorm.DB, s *Store) {
 			zero := verifrt.Bool("zero")
 			in := KDefault{}
